@@ -283,18 +283,8 @@ def otf_products_origin(run, db):
     phase ramp, that was normalised by its own DC sample (division, or subtraction for a phase), through exactly one forward transform,
     and that is the modulus / angle / value of the spectrum as its name says.  Index arithmetic on the shape is followed exactly
     (n//2, floor(n/2), ceil(n/2) differ for odd n)."""
-    from ..domains.origin import Ix, half
+    from ..domains.origin import Ix, half, IxV
     decided = 0
-
-    class LenTok(Value):
-        pass
-
-    class HalfReal(Value):
-        pass
-
-    class IxV(Value):
-        def __init__(self, ix):
-            self.ix = ix
 
     class Samp(Value):
         """one sample of an array: `dc` says whether it is that array's zero-frequency sample"""
@@ -316,15 +306,6 @@ def otf_products_origin(run, db):
             def call_ext(self, dotted, args, kwargs, node):
                 last = dotted.rsplit('.', 1)[-1]
                 a0 = args[0] if args else None
-                if last == 'floor' and isinstance(a0, HalfReal):
-                    return IxV(half(self.p))
-                if last == 'ceil' and isinstance(a0, HalfReal):
-                    return IxV(Ix(1, self.p, self.p))
-                if last == 'int' and isinstance(a0, (IxV, HalfReal)):
-                    return a0 if isinstance(a0, IxV) else IxV(half(self.p))
-                if last in ('round', 'rint', 'around') and isinstance(a0, HalfReal):
-                    # n even: n/2 exactly.  n odd: a + 1/2 rounds to the even neighbour, which is a + 1 whenever a is odd
-                    return IxV(half(self.p) if self.p == 0 else Ix(1, 1, self.p))
                 if last == 'angle' and isinstance(a0, Og):
                     return self._carry(Og(a0.o, a0.r, a0.kind), a0, tag='angle')
                 r = B.call_ext(self, dotted, args, kwargs, node)
@@ -333,8 +314,6 @@ def otf_products_origin(run, db):
                 return r
 
             def getattr(self, v, name, node):
-                if isinstance(v, Og) and name == 'shape':
-                    return Tup([LenTok(), LenTok()])
                 r = B.getattr(self, v, name, node)
                 return self._carry(r, v) if isinstance(v, Og) else r
 
@@ -362,13 +341,6 @@ def otf_products_origin(run, db):
                 return B.subscript(self, v, idx, node)
 
             def binop(self, op, a, b, node):
-                if isinstance(a, LenTok) and isinstance(b, Const) and b.v == 2:
-                    if isinstance(op, ast.FloorDiv):
-                        return IxV(half(self.p))
-                    if isinstance(op, ast.Div):
-                        return HalfReal()
-                if isinstance(a, IxV) and isinstance(b, Const) and isinstance(b.v, int) and isinstance(op, (ast.Add, ast.Sub)):
-                    return IxV(a.ix + Ix(0, b.v if isinstance(op, ast.Add) else -b.v, self.p))
                 if isinstance(a, Og) and isinstance(b, Samp) and isinstance(op, (ast.Div, ast.Sub)):
                     note = a.note if isinstance(a.note, dict) else {}
                     tag = note.get('tag')
@@ -382,8 +354,8 @@ def otf_products_origin(run, db):
                     else:
                         how = 'sub' if tag == 'angle' else 'bad'
                     return self._carry(Og(a.o, a.r, a.kind), a, dcn=how)
-                if isinstance(a, (LenTok, HalfReal, IxV, Samp)) or isinstance(b, (LenTok, HalfReal, IxV, Samp)):
-                    return Real() if isinstance(a, (LenTok, Real, Const)) and isinstance(b, (LenTok, Real, Const)) else Unknown('index arithmetic that is not followed')
+                if isinstance(a, Samp) or isinstance(b, Samp):
+                    return Unknown('arithmetic on a sample that is not followed')
                 r = B.binop(self, op, a, b, node)
                 src = a if isinstance(a, Og) else b
                 return self._carry(r, src) if isinstance(src, Og) else r
